@@ -1,7 +1,887 @@
-//! C24 — not built yet.
-use vcore::Ctx;
+//! C24 — multipart uploads bind files exactly as mapped and respect limits.
+//!
+//! Bodies follow the GraphQL multipart request specification (parts `operations`, `map`, then the files) and are
+//! written by the module's own writer. The oracle is a reference binding model over the *generated* structure:
+//! which variable positions each file is mapped to, which map entries have no file part, which file parts exceed
+//! `max_file_size`, how many file parts there are against `max_num_files`. An accepted request is checked by
+//! executing a schema with an `Upload`-typed argument on the value found at every mapped position.
+use async_graphql::http::{receive_batch_body, MultipartOptions};
+use async_graphql::{BatchRequest, Context, EmptySubscription, Name, Object, Request, Schema, SimpleObject, Upload, Value as GValue, Variables};
+use futures_util::io::AsyncRead;
+use indexmap::IndexMap;
+use serde_json::{Map, Value};
+use std::io::{Read, Seek, SeekFrom};
+use std::pin::Pin;
+use std::task::{Context as TaskCx, Poll};
+use vcore::det::block_on;
+use vcore::gens::*;
+use vcore::src::fnv1a;
+use vcore::{Case, Ctx, Src};
 
-pub fn run(_ctx: &mut Ctx) {
-    eprintln!("C24: check not built yet");
-    std::process::exit(2);
+// ---------------------------------------------------------------------------------------------------------
+// probe schema: reads the upload bound to an `Upload`-typed argument
+
+#[derive(SimpleObject)]
+struct Info {
+    filename: String,
+    content_type: Option<String>,
+    hex: String,
+}
+struct NoQuery;
+#[Object]
+impl NoQuery {
+    async fn ok(&self) -> bool {
+        true
+    }
+}
+/// uploads are only allowed on mutations
+struct UpMutation;
+#[Object]
+impl UpMutation {
+    async fn up(&self, ctx: &Context<'_>, f: Option<Upload>) -> async_graphql::Result<Option<Info>> {
+        let f = match f {
+            None => return Ok(None),
+            Some(f) => f,
+        };
+        let mut v = f.value(ctx)?;
+        let mut data = vec![];
+        // the whole file, whatever the handle's current position is
+        v.content.seek(SeekFrom::Start(0))?;
+        v.content.read_to_end(&mut data)?;
+        Ok(Some(Info { filename: v.filename, content_type: v.content_type, hex: hex(&data) }))
+    }
+}
+type UpSchema = Schema<NoQuery, UpMutation, EmptySubscription>;
+
+fn hex(b: &[u8]) -> String {
+    let mut s = String::with_capacity(b.len() * 2);
+    for x in b {
+        s.push_str(&format!("{:02x}", x));
+    }
+    s
+}
+
+// ---------------------------------------------------------------------------------------------------------
+// own JSON and multipart/form-data writers
+
+#[derive(Clone, Copy)]
+struct JStyle {
+    ws: bool,
+    esc_non_ascii: bool,
+    esc_slash: bool,
+}
+fn json_str(x: &str, st: JStyle, out: &mut String) {
+    out.push('"');
+    for c in x.chars() {
+        match c {
+            '"' => out.push_str("\\\""),
+            '\\' => out.push_str("\\\\"),
+            '\n' => out.push_str("\\n"),
+            '\r' => out.push_str("\\r"),
+            '\t' => out.push_str("\\t"),
+            '/' if st.esc_slash => out.push_str("\\/"),
+            c if (c as u32) < 0x20 => out.push_str(&format!("\\u{:04x}", c as u32)),
+            c if (c as u32) >= 0x7f && st.esc_non_ascii => {
+                let mut b = [0u16; 2];
+                for u in c.encode_utf16(&mut b) {
+                    out.push_str(&format!("\\u{:04X}", u));
+                }
+            }
+            c => out.push(c),
+        }
+    }
+    out.push('"');
+}
+
+fn json_text(v: &Value, st: JStyle, out: &mut String) {
+    let sp = if st.ws { " " } else { "" };
+    match v {
+        Value::Null => out.push_str("null"),
+        Value::Bool(b) => out.push_str(if *b { "true" } else { "false" }),
+        Value::Number(n) => out.push_str(&n.to_string()),
+        Value::String(x) => json_str(x, st, out),
+        Value::Array(a) => {
+            out.push('[');
+            for (i, x) in a.iter().enumerate() {
+                if i > 0 {
+                    out.push(',');
+                    out.push_str(sp);
+                }
+                json_text(x, st, out);
+            }
+            out.push(']');
+        }
+        Value::Object(m) => {
+            out.push('{');
+            out.push_str(sp);
+            for (i, (k, x)) in m.iter().enumerate() {
+                if i > 0 {
+                    out.push(',');
+                    out.push_str(if st.ws { "\n  " } else { "" });
+                }
+                json_str(k, st, out);
+                out.push(':');
+                out.push_str(sp);
+                json_text(x, st, out);
+            }
+            out.push_str(sp);
+            out.push('}');
+        }
+    }
+}
+
+struct Part {
+    name: String,
+    filename: Option<String>,
+    content_type: Option<String>,
+    data: Vec<u8>,
+}
+
+#[derive(Clone, Copy)]
+struct MpStyle {
+    preamble: bool,
+    trailing_crlf: bool,
+}
+
+/// own multipart/form-data writer (RFC 7578 / RFC 2046)
+fn write_multipart(boundary: &str, parts: &[Part], st: MpStyle) -> Vec<u8> {
+    let mut out = vec![];
+    if st.preamble {
+        out.extend_from_slice(b"preamble text\r\n");
+    }
+    for p in parts {
+        out.extend_from_slice(format!("--{}\r\n", boundary).as_bytes());
+        out.extend_from_slice(format!("Content-Disposition: form-data; name=\"{}\"", p.name).as_bytes());
+        if let Some(f) = &p.filename {
+            out.extend_from_slice(format!("; filename=\"{}\"", f).as_bytes());
+        }
+        out.extend_from_slice(b"\r\n");
+        if let Some(ct) = &p.content_type {
+            out.extend_from_slice(format!("Content-Type: {}\r\n", ct).as_bytes());
+        }
+        out.extend_from_slice(b"\r\n");
+        out.extend_from_slice(&p.data);
+        out.extend_from_slice(b"\r\n");
+    }
+    out.extend_from_slice(format!("--{}--", boundary).as_bytes());
+    if st.trailing_crlf {
+        out.extend_from_slice(b"\r\n");
+    }
+    out
+}
+
+// ---------------------------------------------------------------------------------------------------------
+// the generated structure
+
+#[derive(Clone, Debug, PartialEq)]
+enum Seg {
+    Key(String),
+    Idx(usize),
+}
+#[derive(Clone, Debug)]
+struct Slot {
+    req: usize,
+    path: Vec<Seg>,
+}
+impl Slot {
+    /// the path as the specification writes it (`variables.a.0.b`, batch: `<i>.variables.a.0.b`)
+    fn spelled(&self, batch: bool) -> String {
+        let mut p = if batch { format!("{}.variables", self.req) } else { "variables".to_string() };
+        for s in &self.path {
+            match s {
+                Seg::Key(k) => p.push_str(&format!(".{}", k)),
+                Seg::Idx(i) => p.push_str(&format!(".{}", i)),
+            }
+        }
+        p
+    }
+}
+
+struct FileSpec {
+    field: String,
+    filename: String,
+    ctype: Option<String>,
+    data: Vec<u8>,
+    /// positions this file is mapped to (all exist in `variables` and hold null)
+    slots: Vec<Slot>,
+    /// additional mapped paths that resolve to nothing (don't-care)
+    unresolvable: Vec<String>,
+    /// listed in `map`
+    in_map: bool,
+    /// a file part is sent
+    sent: bool,
+}
+
+#[derive(Clone, Copy, Debug)]
+struct ReaderMode {
+    /// bytes handed out per read (0 = everything)
+    chunk: usize,
+    /// return Pending (self-waking) between reads
+    pending: bool,
+}
+
+struct Spec {
+    batch: bool,
+    vars: Vec<Map<String, Value>>,
+    files: Vec<FileSpec>,
+    /// order in which the sent file parts follow `operations` and `map`
+    order: Vec<usize>,
+    boundary: String,
+    ops_ct: bool,
+    style: MpStyle,
+    js: JStyle,
+    mfs: Option<usize>,
+    mnf: Option<usize>,
+    reader: ReaderMode,
+}
+
+const KEYS: [&str; 8] = ["file", "files", "input", "a", "doc", "list", "meta", "x1"];
+
+fn gen_vars_value(s: &mut dyn Src, depth: usize, req: usize, path: &mut Vec<Seg>, slots: &mut Vec<Slot>) -> Value {
+    let k = if depth == 0 { s.weighted(&[5, 1]) } else { s.weighted(&[6, 1, 2, 2]) };
+    match k {
+        0 => {
+            slots.push(Slot { req, path: path.clone() });
+            Value::Null
+        }
+        1 => match s.choose(3) {
+            0 => Value::String(gen_string(s, 4)),
+            1 => Value::from(s.range(-5, 5)),
+            _ => Value::Bool(s.bool()),
+        },
+        2 => {
+            let n = 1 + s.choose(3);
+            let mut l = vec![];
+            for i in 0..n {
+                path.push(Seg::Idx(i));
+                l.push(gen_vars_value(s, depth - 1, req, path, slots));
+                path.pop();
+            }
+            Value::Array(l)
+        }
+        _ => Value::Object(gen_vars_obj(s, depth - 1, req, path, slots, 2)),
+    }
+}
+
+fn gen_vars_obj(s: &mut dyn Src, depth: usize, req: usize, path: &mut Vec<Seg>, slots: &mut Vec<Slot>, max: usize) -> Map<String, Value> {
+    let n = 1 + s.choose(max);
+    let mut m = Map::new();
+    let start = s.choose(KEYS.len());
+    for i in 0..n {
+        let key = if s.chance(1, 6) { format!("{}{}", gen_name(s, 4), i) } else { KEYS[(start + i) % KEYS.len()].to_string() };
+        if m.contains_key(&key) {
+            continue; // keys stay distinct
+        }
+        path.push(Seg::Key(key.clone()));
+        let v = gen_vars_value(s, depth, req, path, slots);
+        path.pop();
+        m.insert(key, v);
+    }
+    m
+}
+
+fn gen_filename(s: &mut dyn Src) -> String {
+    let n = 1 + s.choose(10);
+    (0..n)
+        .map(|_| match s.weighted(&[8, 3, 2, 2]) {
+            0 => (b'a' + s.choose(26) as u8) as char,
+            1 => *pick(s, &['.', '-', '_', ' ', '(', ')', '+', ',']),
+            2 => (b'0' + s.choose(10) as u8) as char,
+            _ => *pick(s, &['é', '日', 'ж', 'ß', '😀']),
+        })
+        .collect()
+}
+
+/// File content of exactly `len` bytes built from a bounded number of draws: a drawn pattern (text, CR / LF / dash
+/// runs, header look-alikes, near-misses of the delimiter) cycled to length, or pseudo-random bytes expanded from one
+/// drawn seed.
+fn gen_data(s: &mut dyn Src, len: usize, boundary: &str) -> Vec<u8> {
+    let mut d: Vec<u8> = Vec::with_capacity(len);
+    match s.choose(4) {
+        0 => d.extend((0..len).map(|i| b'a' + (i % 26) as u8)),
+        1 => {
+            let mut x = s.u64() | 1;
+            for _ in 0..len {
+                x = x.wrapping_mul(6364136223846793005).wrapping_add(1442695040888963407);
+                d.push((x >> 56) as u8);
+            }
+        }
+        _ => {
+            let mut pat: Vec<u8> = vec![];
+            for _ in 0..1 + s.choose(12) {
+                match s.choose(12) {
+                    0 => pat.extend_from_slice(b"\r\n"),
+                    1 => pat.extend_from_slice(b"--"),
+                    2 => pat.extend_from_slice(b"\r\n--"),
+                    3 => pat.push(b'\r'),
+                    4 => pat.push(b'\n'),
+                    5 => pat.push(b'-'),
+                    6 => pat.extend_from_slice(b"\0\xff\xfe"),
+                    7 => pat.extend_from_slice(b"Content-Disposition: form-data; name=\"map\"\r\n\r\n{}"),
+                    8 => {
+                        // near-miss of the delimiter: CRLF "--" and all but the last character of the boundary
+                        pat.extend_from_slice(b"\r\n--");
+                        pat.extend_from_slice(&boundary.as_bytes()[..boundary.len() - 1]);
+                        pat.push(b'!');
+                    }
+                    9 => pat.extend_from_slice(gen_string(s, 6).as_bytes()),
+                    _ => pat.push(s.raw() as u8),
+                }
+            }
+            d.extend(pat.iter().cycle().take(len));
+        }
+    }
+    if boundary.len() <= d.len() && d.windows(boundary.len()).any(|w| w == boundary.as_bytes()) {
+        // the boundary must not occur in a part: fall back to a filler of the same length
+        d = vec![b'x'; len];
+    }
+    d
+}
+
+fn operations_json(sp: &Spec) -> String {
+    let one = |v: &Map<String, Value>| {
+        let mut t = String::from("{\"query\":");
+        json_str("mutation($f: Upload) { up(f: $f) }", sp.js, &mut t);
+        t.push_str(",\"variables\":");
+        json_text(&Value::Object(v.clone()), sp.js, &mut t);
+        t.push('}');
+        t
+    };
+    if sp.batch {
+        format!("[{}]", sp.vars.iter().map(one).collect::<Vec<_>>().join(","))
+    } else {
+        one(&sp.vars[0])
+    }
+}
+
+fn map_json(sp: &Spec) -> String {
+    let mut m = Map::new();
+    for f in sp.files.iter().filter(|f| f.in_map) {
+        let mut paths: Vec<Value> = f.slots.iter().map(|p| Value::String(p.spelled(sp.batch))).collect();
+        paths.extend(f.unresolvable.iter().map(|p| Value::String(p.clone())));
+        m.insert(f.field.clone(), Value::Array(paths));
+    }
+    let mut t = String::new();
+    json_text(&Value::Object(m), sp.js, &mut t);
+    t
+}
+
+fn body(sp: &Spec) -> Vec<u8> {
+    let mut parts = vec![
+        Part { name: "operations".into(), filename: None, content_type: if sp.ops_ct { Some("application/json".into()) } else { None }, data: operations_json(sp).into_bytes() },
+        Part { name: "map".into(), filename: None, content_type: None, data: map_json(sp).into_bytes() },
+    ];
+    for i in &sp.order {
+        let f = &sp.files[*i];
+        parts.push(Part { name: f.field.clone(), filename: Some(f.filename.clone()), content_type: f.ctype.clone(), data: f.data.clone() });
+    }
+    write_multipart(&sp.boundary, &parts, sp.style)
+}
+
+/// `exclude_f1`: the constructs of C24-F1 (more file parts than max_num_files; both limits set with a body longer
+/// than their product) are excluded by construction.
+fn gen_spec(s: &mut dyn Src, exclude_f1: bool) -> Spec {
+    // shape decisions first, so that short choice vectors still vary them
+    let batch = s.choose(3) != 0;
+    let nreq = if batch { 1 + s.choose(3) } else { 1 };
+    let nfiles = s.weighted(&[1, 3, 4, 4, 3, 2]);
+    let numeric_fields = s.choose(3) != 0;
+    let reader = match s.choose(4) {
+        0 | 1 => ReaderMode { chunk: 0, pending: false },
+        2 => ReaderMode { chunk: *pick(s, &[2048usize, 1, 7, 64, 1000, 3000]), pending: false },
+        _ => ReaderMode { chunk: *pick(s, &[2048usize, 5, 64, 1000]), pending: true },
+    };
+    let mfs_delta = match s.choose(3) {
+        0 => None,
+        _ => Some(*pick(s, &[0usize, 1, 17, 100, 1900, 2048, 4500])),
+    };
+    let (mnf_kind, mnf_extra) = (s.choose(6), s.choose(40));
+    let js = JStyle { ws: s.chance(1, 3), esc_non_ascii: s.chance(1, 3), esc_slash: false };
+    // with a reader that pends, the bytes after the close delimiter may never be requested: none are sent
+    let style = MpStyle { preamble: s.chance(1, 5), trailing_crlf: s.bool() && !reader.pending };
+    let ops_ct = s.bool();
+    let size_draws: Vec<(usize, usize)> = (0..nfiles).map(|_| (s.weighted(&[2, 6, 3, 3, 2, 1]), s.choose(3000))).collect();
+    let order_draws: Vec<u32> = (0..nfiles).map(|_| s.raw()).collect();
+    // variables with their upload positions
+    let mut slots = vec![];
+    let mut vars = vec![];
+    for r in 0..nreq {
+        let mut path = vec![];
+        vars.push(gen_vars_obj(s, 3, r, &mut path, &mut slots, 3));
+    }
+    // files and the assignment of positions to files (a position belongs to at most one file)
+    let mut files: Vec<FileSpec> = (0..nfiles)
+        .map(|i| FileSpec {
+            field: if numeric_fields { format!("{}", i) } else { format!("{}{}", *pick(s, &["file", "f.", "upload-", "Ж", "blob_"]), i) },
+            filename: gen_filename(s),
+            ctype: match s.choose(5) {
+                0 => None,
+                1 => Some("text/plain".into()),
+                2 => Some("application/octet-stream".into()),
+                3 => Some("image/png".into()),
+                _ => Some("text/plain; charset=utf-8".into()),
+            },
+            data: vec![],
+            slots: vec![],
+            unresolvable: vec![],
+            in_map: false,
+            sent: true,
+        })
+        .collect();
+    if nfiles > 0 {
+        // each position goes to one of the files (weight 3 each) or stays unmapped (weight 1, last alternative)
+        let mut w = vec![3u32; nfiles];
+        w.push(1);
+        for sl in &slots {
+            let t = s.weighted(&w);
+            if t < nfiles {
+                files[t].slots.push(sl.clone());
+            }
+        }
+    }
+    for f in files.iter_mut() {
+        f.in_map = !f.slots.is_empty();
+        if !f.in_map {
+            // a file nothing is mapped to: mostly dropped, sometimes sent as a file part outside the map
+            f.sent = s.chance(1, 4);
+            continue;
+        }
+        if s.chance(1, 10) {
+            // mapped paths that resolve to nothing (don't-care)
+            let p = match s.choose(6) {
+                0 => "variables.nosuch".to_string(),
+                1 => "variables".to_string(),
+                2 => "nosuch.path".to_string(),
+                3 => format!("{}.99", f.slots[0].spelled(batch)),
+                4 => (if batch { "variables.file" } else { "0.variables.file" }).to_string(),
+                _ => format!("{}.variables.file", nreq + s.choose(3)),
+            };
+            f.unresolvable.push(p);
+        }
+        if s.chance(1, 12) {
+            f.sent = false; // map entry without a file part
+        }
+    }
+    let boundary: String = {
+        let n = 6 + s.choose(30);
+        (0..n)
+            .map(|_| match s.choose(4) {
+                0 => (b'a' + s.choose(26) as u8) as char,
+                1 => (b'A' + s.choose(26) as u8) as char,
+                2 => (b'0' + s.choose(10) as u8) as char,
+                _ => *pick(s, &['-', '_']),
+            })
+            .collect()
+    };
+    let mut sp = Spec { batch, vars, files, order: vec![], boundary, ops_ct, style, js, mfs: None, mnf: None, reader };
+    // order of the file parts
+    let mut sent: Vec<usize> = (0..sp.files.len()).filter(|i| sp.files[*i].sent).collect();
+    let mut k = 0;
+    while !sent.is_empty() {
+        let pos = ((order_draws[k] as u64 * sent.len() as u64) >> 32) as usize;
+        sp.order.push(sent.remove(pos));
+        k += 1;
+    }
+    // max_file_size: never below the non-file parts (see assumptions); file sizes around it
+    let base = operations_json(&sp).len().max(map_json(&sp).len());
+    sp.mfs = mfs_delta.map(|d| base + d);
+    let boundary = sp.boundary.clone();
+    for (i, f) in sp.files.iter_mut().enumerate() {
+        if !f.sent {
+            continue;
+        }
+        let (class, extra) = size_draws[i];
+        let len = match sp.mfs {
+            None => match class {
+                0 => 0,
+                1 | 2 => 1 + extra % 64,
+                3 | 4 => 2046 + extra % 5,
+                _ => 3000 + extra,
+            },
+            Some(l) => match class {
+                0 => 0,
+                1 => 1 + extra % l.min(80),
+                2 => l,
+                3 => l - 1,
+                4 => l + 1,
+                _ => l + 2 + extra,
+            },
+        };
+        f.data = gen_data(s, len, &boundary);
+    }
+    let nparts = sp.order.len();
+    sp.mnf = if exclude_f1 {
+        let need = match sp.mfs {
+            Some(l) => (body(&sp).len() + l - 1) / l,
+            None => 0,
+        };
+        match mnf_kind {
+            0 | 1 => None,
+            k => Some(nparts.max(need) + k % 2),
+        }
+    } else {
+        match mnf_kind {
+            0 => None,
+            1 => Some(nparts),
+            2 => Some(nparts + 1),
+            3 => Some(nparts.saturating_sub(1)),
+            4 => Some(mnf_extra % 3),
+            _ => Some(nparts + 2 + mnf_extra),
+        }
+    };
+    sp
+}
+
+// ---------------------------------------------------------------------------------------------------------
+// execution and oracle
+
+struct ChunkReader<'a> {
+    data: &'a [u8],
+    pos: usize,
+    mode: ReaderMode,
+    ready: bool,
+}
+impl<'a> AsyncRead for ChunkReader<'a> {
+    fn poll_read(mut self: Pin<&mut Self>, cx: &mut TaskCx<'_>, buf: &mut [u8]) -> Poll<std::io::Result<usize>> {
+        if self.mode.pending && !self.ready {
+            self.ready = true;
+            cx.waker().wake_by_ref();
+            return Poll::Pending;
+        }
+        self.ready = false;
+        let left = self.data.len() - self.pos;
+        let want = if self.mode.chunk == 0 { left } else { left.min(self.mode.chunk) };
+        let n = want.min(buf.len());
+        let p = self.pos;
+        buf[..n].copy_from_slice(&self.data[p..p + n]);
+        self.pos += n;
+        Poll::Ready(Ok(n))
+    }
+}
+
+fn render(sp: &Spec, body_len: usize) -> String {
+    let files: Vec<String> = sp
+        .files
+        .iter()
+        .map(|f| {
+            format!(
+                "{{field={:?} filename={:?} type={:?} len={} fnv={:016x} head={:?} in_map={} sent={}}}",
+                f.field,
+                f.filename,
+                f.ctype,
+                f.data.len(),
+                fnv1a(&f.data),
+                String::from_utf8_lossy(&f.data[..f.data.len().min(16)]),
+                f.in_map,
+                f.sent
+            )
+        })
+        .collect();
+    format!(
+        "operations={} map={} files=[{}] part order={:?} boundary={:?} max_file_size={:?} max_num_files={:?} reader={:?} preamble={} trailing_crlf={} body_len={}",
+        operations_json(sp),
+        map_json(sp),
+        files.join(", "),
+        sp.order,
+        sp.boundary,
+        sp.mfs,
+        sp.mnf,
+        sp.reader,
+        sp.style.preamble,
+        sp.style.trailing_crlf,
+        body_len
+    )
+}
+
+fn walk<'a>(vars: &'a Variables, path: &[Seg]) -> Option<&'a GValue> {
+    let mut cur = match &path[0] {
+        Seg::Key(k) => vars.get(&Name::new(k))?,
+        Seg::Idx(_) => return None,
+    };
+    for s in &path[1..] {
+        cur = match (cur, s) {
+            (GValue::Object(o), Seg::Key(k)) => o.get(&Name::new(k))?,
+            (GValue::List(l), Seg::Idx(i)) => l.get(*i)?,
+            _ => return None,
+        };
+    }
+    Some(cur)
+}
+
+fn set_null(v: &mut Map<String, Value>, path: &[Seg]) {
+    let mut cur = match &path[0] {
+        Seg::Key(k) => match v.get_mut(k) {
+            Some(x) => x,
+            None => return,
+        },
+        Seg::Idx(_) => return,
+    };
+    for s in &path[1..] {
+        let next = match (cur, s) {
+            (Value::Object(o), Seg::Key(k)) => o.get_mut(k),
+            (Value::Array(l), Seg::Idx(i)) => l.get_mut(*i),
+            _ => None,
+        };
+        cur = match next {
+            Some(x) => x,
+            None => return,
+        };
+    }
+    *cur = Value::Null;
+}
+
+/// Check an accepted request against the binding model; Err(reason) on the first deviation.
+fn check_bindings(sp: &Spec, schema: &UpSchema, decoded: BatchRequest) -> Result<(), String> {
+    let mut reqs: Vec<Request> = match decoded {
+        BatchRequest::Single(r) => {
+            if sp.batch {
+                return Err("a batch was decoded as a single request".into());
+            }
+            vec![r]
+        }
+        BatchRequest::Batch(v) => {
+            if !sp.batch {
+                return Err("a single request was decoded as a batch".into());
+            }
+            v
+        }
+    };
+    if reqs.len() != sp.vars.len() {
+        return Err(format!("{} requests sent, {} decoded", sp.vars.len(), reqs.len()));
+    }
+    let any_unresolvable = sp.files.iter().any(|f| !f.unresolvable.is_empty());
+    for (ri, req) in reqs.iter_mut().enumerate() {
+        // (file index, slot) bound in this request
+        let bound: Vec<(usize, &Slot)> = sp.files.iter().enumerate().filter(|(_, f)| f.in_map && f.sent).flat_map(|(i, f)| f.slots.iter().filter(|s| s.req == ri).map(move |s| (i, s))).collect();
+        // nothing but the mapped positions changed (skipped when the map also lists unresolvable paths: don't-care)
+        if !any_unresolvable {
+            let mut w = match serde_json::to_value(&req.variables) {
+                Ok(Value::Object(m)) => m,
+                other => return Err(format!("request {}: variables serialise as {:?}", ri, other)),
+            };
+            for (_, sl) in &bound {
+                set_null(&mut w, &sl.path);
+            }
+            if w != sp.vars[ri] {
+                return Err(format!("request {}: variables outside the mapped positions changed: {}", ri, Value::Object(w)));
+            }
+        }
+        if bound.is_empty() {
+            continue;
+        }
+        // read every mapped position through an Upload-typed argument
+        let mut pv = IndexMap::new();
+        let mut q = String::from("mutation(");
+        let mut sel = String::new();
+        for (k, (_, sl)) in bound.iter().enumerate() {
+            let v = match walk(&req.variables, &sl.path) {
+                Some(v) => v.clone(),
+                None => return Err(format!("request {}: position {} vanished", ri, sl.spelled(sp.batch))),
+            };
+            pv.insert(Name::new(format!("p{}", k)), v);
+            q.push_str(&format!("$p{}: Upload ", k));
+            sel.push_str(&format!(" p{}: up(f: $p{}) {{ filename contentType hex }}", k, k));
+        }
+        q.push_str(&format!(") {{{} }}", sel));
+        let mut probe = Request::new(q).variables(Variables::from_value(GValue::Object(pv)));
+        probe.uploads = std::mem::take(&mut req.uploads);
+        let resp = block_on(schema.execute(probe));
+        if !resp.errors.is_empty() {
+            return Err(format!("request {}: reading the bound uploads failed: {:?}", ri, resp.errors));
+        }
+        let data = serde_json::to_value(&resp.data).map_err(|e| e.to_string())?;
+        for (k, (fi, sl)) in bound.iter().enumerate() {
+            let f = &sp.files[*fi];
+            let want = serde_json::json!({ "filename": f.filename, "contentType": f.ctype, "hex": hex(&f.data) });
+            let got = &data[format!("p{}", k)];
+            if *got != want {
+                let short = |v: &Value| vcore::drive::truncate(&v.to_string(), 300);
+                return Err(format!("request {}: position {} should hold file {:?} ({}), holds {}", ri, sl.spelled(sp.batch), f.field, short(&want), short(got)));
+            }
+        }
+    }
+    Ok(())
+}
+
+fn evaluate(sp: &Spec, schema: &UpSchema, f1_open: bool) -> Case {
+    let bytes = body(sp);
+    let text = render(sp, bytes.len());
+    let mut opts = MultipartOptions::default();
+    if let Some(l) = sp.mfs {
+        opts = opts.max_file_size(l);
+    }
+    if let Some(k) = sp.mnf {
+        opts = opts.max_num_files(k);
+    }
+    let ct = format!("multipart/form-data; boundary={}", sp.boundary);
+    let reader = ChunkReader { data: &bytes, pos: 0, mode: sp.reader, ready: false };
+    let actual = block_on(receive_batch_body(Some(ct.as_str()), reader, opts));
+
+    // reference model
+    let nparts = sp.order.len();
+    let missing = sp.files.iter().any(|f| f.in_map && !f.sent);
+    let over_size = sp.mfs.map(|l| sp.order.iter().any(|i| sp.files[*i].data.len() > l)).unwrap_or(false);
+    let at_size = sp.mfs.map(|l| sp.order.iter().any(|i| sp.files[*i].data.len() == l)).unwrap_or(false);
+    let over_count = sp.mnf.map(|k| nparts > k).unwrap_or(false);
+    let spec_reject = missing || over_size || over_count;
+    // quirk C24-F1: max_num_files is not counted; when both limits are set the whole body must fit their product
+    let quirk_reject = missing || over_size || matches!((sp.mfs, sp.mnf), (Some(l), Some(k)) if bytes.len() > l * k);
+    let unresolvable = sp.files.iter().any(|f| f.in_map && !f.unresolvable.is_empty());
+    let multi_path = sp.files.iter().any(|f| f.in_map && f.sent && f.slots.len() > 1);
+    let bound_files = sp.files.iter().filter(|f| f.in_map && f.sent).count();
+    let batch_indexed = sp.batch && sp.files.iter().any(|f| f.in_map && f.slots.iter().any(|s| s.req > 0));
+    let extra = sp.files.iter().any(|f| f.sent && !f.in_map);
+    let permuted = sp.order.windows(2).any(|w| w[0] > w[1]);
+
+    let describe = |e: &async_graphql::ParseRequestError| e.to_string();
+    let c = match actual {
+        Err(e) => {
+            if spec_reject {
+                Case::pass(text)
+            } else if f1_open && quirk_reject {
+                Case::known(text, vec!["C24-F1".into()]).class("F1:within-limits-rejected")
+            } else if unresolvable {
+                Case::pass(text).class("dont-care:unresolvable-path-rejected")
+            } else {
+                Case::fail(text, format!("a request within all limits with every mapped file present was rejected: {}", describe(&e)))
+            }
+        }
+        Ok(decoded) => {
+            let why = if missing {
+                Some("a map entry without a file part was accepted")
+            } else if over_size {
+                Some("a file larger than max_file_size was accepted")
+            } else if over_count {
+                Some("more file parts than max_num_files were accepted")
+            } else {
+                None
+            };
+            match (why, check_bindings(sp, schema, decoded)) {
+                (None, Ok(())) => Case::pass(text),
+                (_, Err(b)) => Case::fail(text, b),
+                (Some(w), Ok(())) => {
+                    if f1_open && !quirk_reject {
+                        Case::known(text, vec!["C24-F1".into()]).class("F1:over-count-accepted")
+                    } else {
+                        Case::fail(text, w)
+                    }
+                }
+            }
+        }
+    };
+    c.nontrivial(spec_reject || (bound_files >= 1 && (bound_files >= 2 || multi_path || sp.batch)))
+        .class(if sp.batch { "batch" } else { "single" })
+        .class_if(multi_path, "file-with-several-paths")
+        .class_if(batch_indexed, "batch-index>0")
+        .class_if(missing, "map-entry-without-file")
+        .class_if(extra, "extra-file-part")
+        .class_if(over_size, "file-over-max-size")
+        .class_if(at_size && !over_size, "file-at-max-size")
+        .class_if(over_count, "over-max-num-files")
+        .class_if(sp.mnf == Some(nparts) && nparts > 0, "at-max-num-files")
+        .class_if(permuted, "file-parts-permuted")
+        .class_if(unresolvable, "unresolvable-path")
+        .class_if(sp.reader.pending, "pending-reader")
+        .class_if(!spec_reject && bound_files >= 1, "accepted-with-bindings")
+        .class_if(bound_files == 0, "no-file-bound")
+}
+
+/// hand-written request: `nfiles` files of `len` bytes mapped to variables.f0, variables.f1, …
+fn witness(nfiles: usize, len: usize, mfs: Option<usize>, mnf: Option<usize>) -> Spec {
+    let mut vars = Map::new();
+    let files = (0..nfiles)
+        .map(|i| {
+            vars.insert(format!("f{}", i), Value::Null);
+            FileSpec {
+                field: format!("{}", i),
+                filename: format!("{}.txt", i),
+                ctype: Some("text/plain".into()),
+                data: vec![b'a' + i as u8; len],
+                slots: vec![Slot { req: 0, path: vec![Seg::Key(format!("f{}", i))] }],
+                unresolvable: vec![],
+                in_map: true,
+                sent: true,
+            }
+        })
+        .collect();
+    Spec {
+        batch: false,
+        vars: vec![vars],
+        files,
+        order: (0..nfiles).collect(),
+        boundary: "----verifBoundary".into(),
+        ops_ct: false,
+        style: MpStyle { preamble: false, trailing_crlf: true },
+        js: JStyle { ws: false, esc_non_ascii: false, esc_slash: false },
+        mfs,
+        mnf,
+        reader: ReaderMode { chunk: 0, pending: false },
+    }
+}
+
+pub fn run(ctx: &mut Ctx) {
+    ctx.rule = "generated multipart/form-data bodies per the GraphQL multipart request spec: single or batch (1..3) operations whose variables hold null at upload \
+                positions nested in objects / lists to depth 3; 0..4 files each mapped to any number of distinct positions (batch-indexed paths in batches), map \
+                entries without file part, file parts outside the map, file parts in any order after operations and map, file sizes 0 / small / limit-1 / limit / \
+                limit+1 / larger, max_file_size and max_num_files absent or around the sizes and the number of file parts, body delivered whole / in chunks / with \
+                pending reads. non-trivial = the model rejects the request, or >=1 file is bound and (>=2 files bound, or a file has several paths, or it is a batch)"
+        .into();
+    ctx.assume("part order: operations, map, then the file parts (any order among themselves), as the multipart request spec prescribes");
+    ctx.assume("every file part has a distinct field name and a filename; every mapped position is a null leaf of `variables` and belongs to at most one file (prefix-free)");
+    ctx.assume("file names use letters, digits, . - _ space ( ) + , and a few non-ASCII letters (no quote, backslash, semicolon, =); field names are [A-Za-z0-9._-] plus one Cyrillic letter");
+    ctx.assume("max_file_size is never smaller than the operations and map parts (whether the file size limit may apply to non-file parts is unspecified; it does here)");
+    ctx.assume("a file part counts towards max_num_files whether or not the map lists it; its size is checked against max_file_size likewise");
+    ctx.assume("don't-care: map paths that resolve to nothing in `variables` (unknown key, index past the end, missing `variables.` prefix, batch index out of range or missing) — \
+                the request may be rejected, or accepted with all other bindings as mapped");
+    ctx.assume("only rejection (Err) is required for violations of limits / missing files, not a particular error variant");
+    ctx.assume("the bytes of a bound upload are the content of UploadValue.content read from offset 0 (handles obtained from one upload share a file position)");
+
+    let f1_open = ctx.open("C24-F1");
+    if f1_open {
+        // generator switch: the main stream never exceeds max_num_files and, with both limits set, chooses
+        // max_num_files so that the body fits max_file_size * max_num_files
+        ctx.excluded("C24-F1");
+    }
+    let schema: UpSchema = Schema::build(NoQuery, UpMutation, EmptySubscription).finish();
+
+    // regression witnesses of C24-F1
+    let ws = [
+        ("max_num_files=1 alone, 2 files", witness(2, 10, None, Some(1))),
+        ("max_num_files=1, max_file_size=1000, 2 files of 10 bytes", witness(2, 10, Some(1000), Some(1))),
+        ("max_num_files=1, max_file_size=300, 1 file of 300 bytes", witness(1, 300, Some(300), Some(1))),
+        ("max_num_files=2, max_file_size=300, 2 files of 300 bytes", witness(2, 300, Some(300), Some(2))),
+        ("max_num_files=0, max_file_size=300, no file", witness(0, 0, Some(300), Some(0))),
+        ("no limits, 3 files", witness(3, 10, None, None)),
+        ("max_num_files=3, 3 files", witness(3, 10, None, Some(3))),
+        ("max_file_size=300, file of 301 bytes", witness(1, 301, Some(300), None)),
+    ];
+    for (name, sp) in ws.iter() {
+        let c = evaluate(sp, &schema, f1_open);
+        if ctx.check_case("witness", c, serde_json::json!({ "witness": name })) {
+            return;
+        }
+    }
+
+    let n = ctx.tier.pick(6_000u32, 250_000);
+    let sc = schema.clone();
+    ctx.stream("bind", n, 1024, move |s| {
+        let sp = gen_spec(s, f1_open);
+        evaluate(&sp, &sc, f1_open)
+    });
+    // the whole domain including the constructs of C24-F1 (identical to `bind` once the finding is closed)
+    let sc = schema.clone();
+    ctx.stream("limits-probe", ctx.tier.pick(2_500, 100_000), 1024, move |s| {
+        let sp = gen_spec(s, false);
+        evaluate(&sp, &sc, f1_open)
+    });
+
+    ctx.floor("accepted-with-bindings", 1_000);
+    ctx.floor("file-with-several-paths", 300);
+    ctx.floor("batch-index>0", 300);
+    ctx.floor("map-entry-without-file", 100);
+    ctx.floor("extra-file-part", 100);
+    ctx.floor("file-over-max-size", 150);
+    ctx.floor("file-at-max-size", 150);
+    ctx.floor("over-max-num-files", 100);
+    ctx.floor("file-parts-permuted", 300);
 }
